@@ -360,7 +360,7 @@ func (e *Engine) witnesses(k int) []map[string]interface{} {
 				obs = append(obs, fmt.Sprintf("%s=%x", sl.name, bs))
 			}
 		}
-		out = append(out, map[string]interface{}{"model": m, "arrays": arrays, "reach": s.Reach, "obs": obs, "uf": e.ufTable(s.PC, m)})
+		out = append(out, map[string]interface{}{"model": m, "arrays": arrays, "reach": s.Reach, "obs": obs, "uf": e.ufTable(s.PC, m), "schedule": append([]int(nil), s.Sched...)})
 	}
 	return out
 }
